@@ -97,6 +97,11 @@ func (*c04) Corpus() []any {
 	top := &c04Chart{Name: "top", Values: vtree{"sub": vtree{"p": int64(2)}, "global": vtree{"g": "top", "t": vtree{"up": int64(2)}}}, Deps: []*c04Chart{sub}}
 	out = append(out, c04Case{Kind: "coalesce", API: "CoalesceValues", Chart: top, Vals: vtree{"sub": vtree{"q": vtree{"r": nil}}}, Tag: "corpus"})
 	out = append(out, c04Case{Kind: "coalesce", API: "CoalesceValues", Chart: top, Vals: vtree{"sub": "oops"}, Tag: "corpus"})
+	// F8 witness (fixed in /repo): a subchart's nested global must not leak to the parent and the sibling
+	out = append(out, c04Case{Kind: "coalesce", API: "CoalesceValues", Tag: "corpus",
+		Chart: &c04Chart{Name: "top", Values: vtree{"global": vtree{"a": vtree{"b": vtree{"x": int64(1)}}}},
+			Deps: []*c04Chart{{Name: "sub1", Values: vtree{}}, {Name: "sub2", Values: vtree{}}}},
+		Vals: vtree{"sub1": vtree{"global": vtree{"a": vtree{"b": vtree{"y": int64(2)}}}}}})
 	out = append(out, c04Case{Kind: "coalesce", API: "CoalesceValues", Chart: &c04Chart{Name: "top", Deps: []*c04Chart{sub}}, Vals: vtree{"sub": nil}, Tag: "corpus"})
 	out = append(out, c04Case{Kind: "files", Files: []vtree{{"a": vtree{"x": int64(1), "y": int64(2)}, "l": []interface{}{int64(1), int64(2)}},
 		{"a": vtree{"x": nil}, "l": []interface{}{int64(3)}}, {"a": "flat"}, {"a": vtree{"k": "v"}}}, Tag: "corpus"})
@@ -108,6 +113,17 @@ func (*c04) Corpus() []any {
 			out = append(out, c04Case{Kind: "parse", Tag: "corpus-parse", Parse: &c04Parse{Fn: fn, S: h,
 				Dest: vtree{"a": []interface{}{int64(5), []interface{}{int64(6)}, vtree{"b": int64(1)}}, "b": vtree{"c": "x"}}}})
 			out = append(out, c04Case{Kind: "parse", Tag: "corpus-parse", Parse: &c04Parse{Fn: fn, S: h, Dest: vtree{"a": vtree{"b": vtree{"k": int64(1)}}, "c": nil}}})
+		}
+	}
+	// witness of the fixed strvals defect: an empty value ending the input after a list index
+	for _, w := range []struct {
+		s    string
+		path []c04Seg
+	}{{"a[0].d=", []c04Seg{{Key: "a", Idx: []int{0}}, {Key: "d"}}}, {"a[1][0].d=", []c04Seg{{Key: "a", Idx: []int{1, 0}}, {Key: "d"}}},
+		{"b.l[1].k=", []c04Seg{{Key: "b"}, {Key: "l", Idx: []int{1}}, {Key: "k"}}}} {
+		for _, fn := range []string{"ParseInto", "ParseIntoString"} {
+			out = append(out, c04Case{Kind: "parse", Tag: "corpus-parse", Parse: &c04Parse{Fn: fn, S: w.s, Dest: vtree{"z": int64(1)},
+				Pairs: []c04Pair{{Path: w.path, Val: ""}}}})
 		}
 	}
 	// all six families on one path, and each adjacent pair of families
@@ -156,6 +172,9 @@ func c04GenChart(r *rand.Rand, name string, levels int, base vtree) *c04Chart {
 	}
 	if levels > 0 {
 		n := r.Intn(3)
+		if name == "top" {
+			n = 1 + r.Intn(2)
+		}
 		names := []string{"sub", "dep", "a", "b"}
 		r.Shuffle(len(names), func(i, j int) { names[i], names[j] = names[j], names[i] })
 		for i := 0; i < n; i++ {
@@ -167,7 +186,11 @@ func c04GenChart(r *rand.Rand, name string, levels int, base vtree) *c04Chart {
 		}
 		// the parent's own section for a subchart, and globals
 		if c.Values != nil && len(c.Deps) > 0 && r.Intn(2) == 0 {
-			c.Values[c.Deps[0].Name] = vtGenVal(r, 2)
+			if r.Intn(8) == 0 {
+				c.Values[c.Deps[0].Name] = vtGenVal(r, 2)
+			} else {
+				c.Values[c.Deps[0].Name] = vtGenMap(r, 2, 1+r.Intn(3))
+			}
 		}
 		if c.Values != nil && r.Intn(3) == 0 {
 			c.Values["global"] = vtGenVal(r, 2)
@@ -212,10 +235,10 @@ func (*c04) Generate(r *rand.Rand, _ int) any {
 		}
 		// user sections for subcharts: tables (often), scalars and nulls (sometimes)
 		for _, d := range ch.Deps {
-			switch r.Intn(6) {
+			switch r.Intn(12) {
 			case 0:
 				vals = c04Set(vals, d.Name, vtScalar(r))
-			case 1, 2, 3:
+			case 1, 2, 3, 4, 5, 6:
 				dv := d.Values
 				if dv == nil {
 					dv = vtree{}
@@ -225,6 +248,32 @@ func (*c04) Generate(r *rand.Rand, _ int) any {
 		}
 		if r.Intn(3) == 0 {
 			vals = c04Set(vals, "global", vtGenVal(r, 2))
+		}
+		// nested global tables at several levels at once (parent defaults, user values, the
+		// user's section for a subchart, the subchart's own defaults): the shapes where a
+		// shallow copy in coalesceGlobals shows (F8)
+		if len(ch.Deps) > 0 && r.Intn(3) == 0 {
+			g := vtree{"a": vtree{"b": vtree{"x": int64(1)}, "s": "g"}, vtKey(r): vtGenVal(r, 2)}
+			if ch.Values == nil {
+				ch.Values = vtree{}
+			}
+			if r.Intn(2) == 0 {
+				ch.Values["global"] = vtMutate(r, g, 3)
+			}
+			vals = c04Set(vals, "global", vtMutate(r, g, 3))
+			for _, d := range ch.Deps {
+				if r.Intn(2) == 0 {
+					if d.Values == nil {
+						d.Values = vtree{}
+					}
+					d.Values["global"] = vtMutate(r, g, 3)
+				}
+				if sec, ok := vals[d.Name].(vtree); ok && r.Intn(2) == 0 {
+					sec["global"] = vtMutate(r, g, 3)
+				} else if r.Intn(3) == 0 {
+					vals[d.Name] = vtree{"global": vtMutate(r, g, 3)}
+				}
+			}
 		}
 		api := []string{"CoalesceValues", "CoalesceValues", "MergeValues", "ToRenderValues"}[r.Intn(4)]
 		tag := "coalesce-single"
